@@ -134,3 +134,144 @@ def replay_c16():
                 if len(fails) >= 3:
                     return {"reproduced": True, "failing_inputs": fails}
     return {"reproduced": bool(fails), "failing_inputs": fails}
+
+
+# ---------------------------------------------------------------------------------------------
+# native replay of the C++ itself: the real geometry.cpp / celllist.cpp of the tree under verification are compiled with g++ against
+# a functional stand-in of pybind11's array_t (engine/cxxharness) into a standalone driver; cases are fed on stdin.
+def _build_harness():
+    import os
+    import subprocess
+    import tempfile
+    from engine.common import REPO, VERIF
+
+    d = tempfile.mkdtemp(prefix="verif-cxxbuild-", dir="/dev/shm")
+    exe = os.path.join(d, "harness")
+    ext = os.path.join(REPO, "matid", "ext")
+    r = subprocess.run(["g++", "-std=c++11", "-O1", "-I", os.path.join(VERIF, "engine", "cxxharness"), "-I", ext,
+                        os.path.join(VERIF, "engine", "cxxharness", "harness.cpp"), os.path.join(ext, "geometry.cpp"), os.path.join(ext, "celllist.cpp"), "-o", exe],
+                       capture_output=True, text=True, timeout=300)
+    if r.returncode != 0:
+        import shutil
+        shutil.rmtree(d, ignore_errors=True)
+        return None, None, r.stderr[-1500:]
+    return d, exe, ""
+
+
+def _run(exe, line):
+    import subprocess
+    r = subprocess.run([exe], input=line + "\n", capture_output=True, text=True, timeout=120)
+    out = r.stdout.strip().splitlines()
+    if r.returncode != 0:
+        return "CRASH rc=%d" % r.returncode, []
+    if not out:
+        return "NO OUTPUT", []
+    head = out[0].split()
+    rows = [[float(x) for x in l.split()] for l in out[1:]]
+    return head, rows
+
+
+def _fmt(a):
+    return " ".join(repr(float(x)) for x in np.asarray(a, dtype=float).reshape(-1))
+
+
+def cxx_replay(limit=3):
+    """C10/C16 statement on the compiled real C++ for a fixed family (cells x pbc x cutoffs; grid and random positions)"""
+    import shutil
+    d, exe, err = _build_harness()
+    if exe is None:
+        return {"reproduced": False, "note": "the C++ sources do not compile against the harness stub: %s" % err}
+    fails = []
+    try:
+        rng = np.random.default_rng(9)
+        for cell in _cells():
+            for pbc in itertools.product([True, False], repeat=3):
+                n = 3
+                sp = rng.uniform(0, 1, size=(n, 3))
+                sp[0] = [0.02, 0.5, 0.97]
+                pos = sp @ cell
+                pb = " ".join("1" if p else "0" for p in pbc)
+                ref = brute_mic(pos, cell, pbc, R=7 if cell[2, 2] < 10 else 3)
+                Lmax = max([np.linalg.norm(cell[k]) for k in range(3) if pbc[k]] + [0.0])
+                for cutoff in ("inf", 0.8, 2.5):
+                    head, rows = _run(exe, "T %d %s %s %s %s" % (n, _fmt(pos), _fmt(cell), pb, cutoff))
+                    bad = []
+                    if head[0] != "OK":
+                        bad.append("driver: %s" % (head,))
+                    else:
+                        co = np.inf if cutoff == "inf" else float(cutoff)
+                        M = np.array(rows).reshape(n, n, 7)
+                        dist, disp, fac = M[:, :, 0], M[:, :, 1:4], M[:, :, 4:7]
+                        for i in range(n):
+                            if dist[i, i] != 0 or np.abs(disp[i, i]).max() != 0:
+                                bad.append("diagonal not zero")
+                            for j in range(n):
+                                if i == j:
+                                    continue
+                                if np.isfinite(dist[i, j]):
+                                    v = pos[i] - pos[j] - fac[i, j] @ cell
+                                    if np.abs(v - disp[i, j]).max() > 1e-8 or abs(np.linalg.norm(v) - dist[i, j]) > 1e-8:
+                                        bad.append("entry (%d,%d) is not a genuine image vector" % (i, j))
+                                    if any(fac[i, j][k] != 0 for k in range(3) if not pbc[k]):
+                                        bad.append("offset along a non-periodic axis")
+                                    if dist[i, j] < ref[i, j] - 1e-8:
+                                        bad.append("shorter than the minimum image distance")
+                                    if np.abs(disp[i, j] + disp[j, i]).max() > 1e-12 or dist[i, j] != dist[j, i] or np.abs(fac[i, j] + fac[j, i]).max() > 0:
+                                        bad.append("tables not antisymmetric/symmetric")
+                                lim = co if np.isfinite(co) else Lmax
+                                if ref[i, j] <= lim - 1e-9 and abs(dist[i, j] - ref[i, j]) > 1e-8:
+                                    bad.append("pair (%d,%d) within range: reported %r, minimum image %r" % (i, j, dist[i, j], ref[i, j]))
+                                if np.isfinite(co) and ref[i, j] > co + 1e-9 and np.isfinite(dist[i, j]):
+                                    bad.append("pair beyond the cutoff reported finite")
+                                if not np.isfinite(co) and not np.isfinite(dist[i, j]):
+                                    bad.append("infinite entry with unbounded cutoff")
+                    if bad:
+                        fails.append({"what": "get_displacement_tensor (C++)", "cell": cell.tolist(), "pbc": pbc, "cutoff": cutoff, "positions": pos.tolist(), "observed": bad[:3]})
+                for ext_d, cutoff in ((1.5, 1.0), (0.8, 2.0)):
+                    head, rows = _run(exe, "E %d %s %s %s %s" % (n, _fmt(pos), _fmt(cell), pb, ext_d))
+                    bad = []
+                    if head[0] != "OK":
+                        bad.append("driver: %s" % (head,))
+                    else:
+                        E = np.array(rows).reshape(-1, 7)
+                        eidx, efac, epos = E[:, 0].astype(int), E[:, 1:4], E[:, 4:7]
+                        if not (np.allclose(epos[:n], pos) and (eidx[:n] == np.arange(n)).all() and (efac[:n] == 0).all()):
+                            bad.append("original atoms not first")
+                        if np.abs(epos - (pos[eidx] + efac @ cell)).max() > 1e-9:
+                            bad.append("image position != original + offset.cell")
+                        if any((efac[:, k] != 0).any() for k in range(3) if not pbc[k]):
+                            bad.append("offset along a non-periodic axis")
+                        keys = {(int(i),) + tuple(int(x) for x in f) for i, f in zip(eidx, efac)}
+                        if len(keys) != len(eidx):
+                            bad.append("image listed twice")
+                        inv = np.linalg.inv(cell)
+                        for i in range(n):
+                            for f in itertools.product(*[range(-5, 6) if p else [0] for p in pbc]):
+                                p_img = pos[i] + np.array(f) @ cell
+                                s = p_img @ inv
+                                near = np.clip(s, 0, 1) @ cell  # a point of the cell (not necessarily the nearest: conservative)
+                                if np.linalg.norm(p_img - near) < ext_d * 0.45 and ((i,) + tuple(f)) not in keys:
+                                    bad.append("image %s of atom %d close to the cell is missing" % (f, i))
+                        q = np.array([0.31, 0.77, 0.52]) @ cell
+                        head2, rows2 = _run(exe, "Q %d %s %s %s %s %s %s" % (n, _fmt(pos), _fmt(cell), pb, ext_d, cutoff, _fmt(q)))
+                        if head2[0] != "OK":
+                            bad.append("query driver: %s" % (head2,))
+                        else:
+                            Q = np.array(rows2).reshape(-1, 9) if rows2 else np.zeros((0, 9))
+                            dd = np.linalg.norm(epos - q, axis=1)
+                            want = set(np.where(dd <= cutoff)[0])
+                            got = set(Q[:, 0].astype(int))
+                            if got != want:
+                                bad.append("query returns %s, brute force %s" % (sorted(got), sorted(want)))
+                            for row in Q:
+                                k = int(row[0])
+                                if abs(row[1] - dd[k]) > 1e-9 or np.abs(row[2:5] - (q - epos[k])).max() > 1e-9 or int(row[5]) != eidx[k] or np.abs(row[6:9] - efac[k]).max() > 0:
+                                    bad.append("query record of image %d wrong" % k)
+                    if bad:
+                        fails.append({"what": "extend_system / CellList (C++)", "cell": cell.tolist(), "pbc": pbc, "extension": ext_d, "cutoff": cutoff,
+                                      "positions": pos.tolist(), "observed": bad[:3]})
+                if len(fails) >= limit:
+                    return {"reproduced": True, "failing_inputs": fails, "via": "compiled harness of the real C++"}
+    finally:
+        shutil.rmtree(d, ignore_errors=True)
+    return {"reproduced": bool(fails), "failing_inputs": fails, "via": "compiled harness of the real C++"}
